@@ -168,15 +168,6 @@ H['kill'] = dict(
     },
 )
 
-H['micro'] = dict(
-    props=['XX'], dir='harness/micro',
-    oomd=ENGINE_OOMD,
-    cxx=['h_micro.cpp', 'env/world.cpp'] + ENGINE_ENV, c=['main_micro.c'],
-    defs={'VSTL_STR_CAP': 8, 'VSTL_VEC_MAX': 4, 'VSTL_MAP_MAX': 4, 'VFW_MAXN': 3},
-    unwind=9, timeout=600, functions=[],
-    variants={'quick': [dict(name='m%d' % m, defs={'H_MICRO': m}) for m in (3, 4, 5, 6)]},
-)
-
 LOGRD = ['-include', 'libc_redirect_log.h']
 H['log'] = dict(
     props=['C20'], dir='harness/log', no_shadow=True,
